@@ -166,6 +166,35 @@ func decorations(b base, thorough bool) []decor {
 				st[si].Fields = fs
 				st1 := append(cloneStructs(st), sdef{"Emb", run})
 				out = append(out, decor{Desc: fmt.Sprintf("embed@%s.%d-%d", s.Name, i, j), Structs: st1})
+				// pairs of decorations: an excluded field right next to the
+				// embedded struct (before / after it) and, in thorough, as the
+				// first / last field inside it
+				for _, ex := range []fdef{{Name: "Excl", Type: "int32", Tag: "-"}, {Name: "hidden", Type: "int32"}} {
+					kind := "dash"
+					if ex.Tag == "" {
+						kind = "unexported"
+					}
+					for _, where := range []string{"before", "after", "first", "last"} {
+						if !thorough && (where == "first" || where == "last") {
+							continue
+						}
+						sp := cloneStructs(st)
+						emb := sdef{"Emb", append([]fdef(nil), run...)}
+						host := append([]fdef(nil), sp[si].Fields...)
+						switch where {
+						case "before":
+							host = append(append(append([]fdef(nil), host[:i]...), ex), host[i:]...)
+						case "after":
+							host = append(append(append([]fdef(nil), host[:i+1]...), ex), host[i+1:]...)
+						case "first":
+							emb.Fields = append([]fdef{ex}, emb.Fields...)
+						case "last":
+							emb.Fields = append(emb.Fields, ex)
+						}
+						sp[si].Fields = host
+						out = append(out, decor{Desc: fmt.Sprintf("embedexcl:%s:%s@%s.%d-%d", kind, where, s.Name, i, j), Structs: append(sp, emb)})
+					}
+				}
 				if thorough || j-i == 1 {
 					// two deep: Emb embeds Emb2 which holds the run
 					st2 := append(cloneStructs(st), sdef{"Emb", []fdef{{Type: "Emb2", Embedded: true}}}, sdef{"Emb2", run})
@@ -497,15 +526,15 @@ func Main() {
 		ID:    "C14",
 		Level: "exploration",
 		Rule: "program enumeration: for each base struct definition (mini, three nested shapes, document, person without embedding) every insertion, at every field position of every struct of the shape, of (i) an unexported field (names hidden/x/_x/non-ASCII lower case) or (ii) an exported field tagged parquet:\"-\", over a menu of Go types (primitives, pointers, slices, arrays, maps, channels, funcs, interfaces, inline and named structs), " +
-			"and (iii) every replacement of a contiguous run of sibling fields by an embedded struct (also two deep and split), every pair of identical runs in two different structs replaced by one shared embedded type (the same struct embedded at two places of the tree), and (iv) grouped declarations: an unexported name declared together with an exported one (F, hidden T) and adjacent same-typed fields declared as one group (A, B T). Each decorated program is generated, compiled and run next to its base: for every value with <= s constructor nodes (and pairs) the two writers' files must be byte-identical (excluded fields set to garbage), and reading into fresh decorated structs must leave excluded fields zero and return the values. " +
+			"and (iii) every replacement of a contiguous run of sibling fields by an embedded struct (also two deep and split), every pair of identical runs in two different structs replaced by one shared embedded type (the same struct embedded at two places of the tree), every embedding combined with an excluded field (dash-tagged or unexported) directly before or after the embedded struct (thorough: also first or last inside it), and (iv) grouped declarations: an unexported name declared together with an exported one (F, hidden T) and adjacent same-typed fields declared as one group (A, B T). Each decorated program is generated, compiled and run next to its base: for every value with <= s constructor nodes (and pairs) the two writers' files must be byte-identical (excluded fields set to garbage), and reading into fresh decorated structs must leave excluded fields zero and return the values. " +
 			"quick uses one name and five types; thorough the full product. distinct = decorated program",
 		Assumptions: []string{
-			"one decoration per program",
+			"one decoration per program, except the pairs (embedding, excluded field next to or inside the embedded struct)",
 			"the expected schema of a decorated struct is derived by the harness's own rules (README) and must equal the base schema, which is itself asserted",
 		},
 		Run:            run,
 		Replay:         replay,
-		QuickBudget:    170 * time.Second,
+		QuickBudget:    280 * time.Second,
 		ThoroughBudget: 60 * time.Minute,
 		MaxShards:      8,
 		MaxConfirm:     3,
